@@ -1,0 +1,17 @@
+//go:build verif
+
+// Verification harness for property C20 (the simulator and the codec agree), read by /verif/govc. Only built with the
+// tag "verif". rtCommand hands the frame the simulator generates for a command and a custom body to the real decoder.
+package terminal
+
+import (
+	"github.com/cuteLittleDevil/go-jt808/protocol/jt808"
+	"github.com/cuteLittleDevil/go-jt808/shared/consts"
+)
+
+func rtCommand(t *Terminal, cmd consts.JT808CommandType, body []byte) (*jt808.JTMessage, error) {
+	data := t.CreateCommandData(cmd, body)
+	j := jt808.NewJTMessage()
+	err := j.Decode(data)
+	return j, err
+}
